@@ -585,3 +585,54 @@ func TestSub_truncation(t *testing.T) {
 }
 
 func TestReplay(t *testing.T) { vk.Replay(t) }
+
+// ---------------------------------------------------------------------------------------
+// native coverage-guided fuzzing (thorough tier)
+
+var subDamagedFuzz = vk.Register(&vk.Sub[Case]{Name: "damaged_fuzz", Gen: genDamaged, Check: check})
+
+func FuzzSub_damaged_fuzz(f *testing.F) { vk.RunFuzz(f, subDamagedFuzz) }
+
+// byte-level target: any byte stream must make the parser terminate with both channels closed,
+// and a stream the standard tokenizer rejects must produce at least one error.
+type BytesCase struct {
+	Data []byte `json:"data"`
+}
+
+func checkBytes(b BytesCase) error {
+	c := Case{Consumer: Consumer{Kind: "concurrent", EntryCap: 0, ErrCap: 0}}
+	if len(b.Data)%2 == 1 {
+		c.Consumer = Consumer{Kind: "sequential", EntryCap: 3, ErrCap: 100}
+	}
+	o, problem := consume(c, b.Data)
+	if problem != nil {
+		return problem
+	}
+	if judgeMalformed(b.Data) && len(o.errs) == 0 {
+		return vk.Errf("a stream of %d bytes that the standard XML tokenizer rejects was parsed without any error (%d entries delivered)", len(b.Data), len(o.entries))
+	}
+	return nil
+}
+
+var subBytes = vk.Register(&vk.Sub[BytesCase]{Name: "bytes_fuzz", Check: checkBytes})
+
+func FuzzSub_bytes_fuzz(f *testing.F) {
+	if fh, err := os.Open("/repo/io/uniprot/data/uniprot_sprot_mini.xml.gz"); err == nil {
+		if zr, err := gzip.NewReader(fh); err == nil {
+			if b, err := io.ReadAll(zr); err == nil {
+				f.Add(b[:min(len(b), 6000)])
+			}
+		}
+		fh.Close()
+	}
+	small := Case{Entries: []EntrySpec{{Accessions: []string{"P12345"}, Names: []string{"A_B"}, Sequence: "MKV"}, {Accessions: []string{"Q1"}, Names: []string{"C_D"}, Protein: "x & y", Sequence: "MA"}}, Copyright: true, Pretty: true}
+	doc, _, _ := document(small)
+	f.Add(doc)
+	f.Add(doc[:len(doc)/2])
+	f.Fuzz(func(t *testing.T, data []byte) {
+		c := BytesCase{Data: data}
+		if err := vk.SafeCheck(subBytes, c); err != nil {
+			vk.FailFuzz(t, subBytes, c, err)
+		}
+	})
+}
